@@ -876,7 +876,12 @@ func c06run(tmp string, idx int, h c06hist, kind string) c06result {
 	if failedReopen > 0 {
 		tags = append(tags, "reopen-failed")
 	}
-	sample := map[string]interface{}{"cfg": h.Cfg, "ops": sops, "outs": souts, "trace": strace, "crash_points": nm + 1,
+	// counted in the evidence's op histogram: crash points explored, trace equalities compared
+	for k := 0; k <= nm; k++ {
+		hist = append(hist, "crash-point")
+	}
+	hist = append(hist, "trace-equality")
+	sample := map[string]interface{}{"cfg": h.Cfg, "ops": sops, "outs": souts, "trace": strace, "crash_points": nm + 1, "removeall_order_mode": h.Perm,
 		"recovered_at_last_point": recs[len(recs)-1]}
 	return c06result{cs: verifhlib.Case{Coq: coq, NT: completedOK > 0 && sawComplete && nm >= 6, Kind: kind, Hist: hist, Tags: tags, Sample: sample,
 		Key: cfgq + verifhlib.List(sops)}}
